@@ -76,7 +76,10 @@ Fixpoint viol_from (i : nat) (m : mon) (its : list item) : verdict :=
     let c := ctx_of it in
     let m0 := item_begin m in
     let k := chk_outs chk_all c m0 (i_outs it) in
-    if is_empty k then viol_from (S i) (mon_outs c m0 (i_outs it)) r
+    if is_empty k then
+      let m' := mon_outs c m0 (i_outs it) in
+      let k' := chk_end c m' in
+      if is_empty k' then viol_from (S i) m' r else VViolation i k'
     else VViolation i k
   end.
 
